@@ -15,11 +15,13 @@ open IterUtils
 def C29_sourceSeq (i : Nat) (acts : List (Act α)) : List α := proj i (acts.filterMap Act.prodOf)
 
 /-- what the current source says (re-extracted on every run): pass-through starts when the
-    marker is consumed; the marker compared is the marker yielded; `merge_generators` defaults to
+    marker is consumed; the marker compared is the marker yielded and it is a private object
+    recognised by identity (no item of `inner` can be taken for it: the model's `Tok.val` /
+    `Tok.marker` split); `merge_generators` defaults to
     running until all inputs are exhausted and that is how `debounced_sorted_prefix` calls it, with
     two sources; `asyncio.wait(FIRST_COMPLETED)`; the flush is a stable `sort(key=key)`. -/
 theorem C29_source_shape :
-    Gen.passMode = .onMarkerConsumed ∧ Gen.markerCmp = Gen.markerYield
+    Gen.passMode = .onMarkerConsumed ∧ Gen.markerCmp = Gen.markerYield ∧ Gen.markerInBand = false
     ∧ Gen.mergeDefaultStop = false ∧ Gen.mergeDefaultStopKnown = true
     ∧ Gen.dspMergeStop = false ∧ Gen.dspMergeStopKnown = true ∧ Gen.dspSources = 2
     ∧ Gen.waitFirstCompleted = true ∧ Gen.sortStableByKey = true := by decide
